@@ -56,6 +56,13 @@ class MesageSwitchCasesSimpleOpWriteHandler(AbstractWriteHandler):
         if not isinstance(self.parent.parent.parent, MesageSwitchSimpleOpWriteHandler):
             raise ValueError("Message switch cases are only allowed as children of message switches.")
 
+        message_switch_handler = self.parent.parent.parent
+        if getattr(message_switch_handler, "have_written_default", False):
+            # (the compiler puts the default behind all cases and accepts only one)
+            raise ValueError("The default of a message switch has to be its last case.")
+        if op.op_code.name == OP_DEFAULT_TEXT:
+            message_switch_handler.have_written_default = True  # type: ignore
+
         if op.op_code.name == OP_CASE_TEXT:
             self.decompiler.write_stmnt(f"case {op.params[0]}:")
             with Blk(self.decompiler, False):
